@@ -309,7 +309,10 @@ def topo_cases(run, T, srcs):
             elif "ASSERT" in l or ("roundtrip" in l and "type=16" in l):
                 run.violation(K_BRIDGE, "on a loaded topology (%s): %s" % (src, l), "kind: input\ncase: %s\n%s\n" % (src, l))
             else:
-                run.violation("loaded-object:" + re.sub(r"\W+", "_", l)[:80], "on a loaded topology (%s): %s" % (src, l), "kind: input\ncase: %s\n%s\n" % (src, l))
+                # one key per (check, object type, flags): a broken keyword would otherwise be reported once per object
+                mm = re.match(r"robj (\S+) .*?(type=\d+)?.*?(flags=\d+)", l)
+                key = "loaded-object:" + (":".join(x for x in mm.groups() if x) if mm else re.sub(r"\W+", "_", l)[:60])
+                run.violation(key, "on a loaded topology (%s): %s" % (src, l), "kind: input\ncase: %s\n%s\n" % (src, l))
         elif l.startswith("obj "):
             m = re.match(r"obj depth=(-?\d+) tsn (.*) \| asn (.*) \| (\d+.*)$", l)
             tf, af, inf = m.group(2), m.group(3), m.group(4)
